@@ -15,7 +15,9 @@ func init() {
 		Name:     "C20",
 		Property: "C20",
 		Gen:      genC20,
-		Oracles:  []func(o *Outcome) []Violation{respOracle("C20"), servedOracleStrict("C20"), oracleImmutable, livenessOracle("C20")},
+		Oracles: []func(o *Outcome) []Violation{respOracle("C20"), servedOracleStrict("C20"), oracleImmutable, livenessOracle("C20"),
+			// purges racing requests and reloads still do their job (shared key / registry state intact)
+			relabelOnly("C20", oracleC18, "served-purged-entry")},
 		NonTrivial: func(o *Outcome) bool {
 			return o.Hist.Probes["hits-checked"] > 0 && (o.Hist.Probes["reloads"] > 0 || o.Hist.Probes["purges"] > 0)
 		},
